@@ -25,7 +25,7 @@ class C12(Prop):
         "direction, inputs unmodified) and then once more under one metamorphic relation run on the implementation: idempotence, "
         "sorted input fixed, reversal with direction, positive affine map (dyadic a, b), weight rescaling, integer weights vs "
         "replication (mean, expectile), int64 / list / tuple containers with before/after comparison of the caller's objects. "
-        "'pava_direct' = pava(y, w) itself (also with w=None) on integer data for which floats are exact, against the model's in-place array program (x and r bit for bit). All four functionals, both directions, levels dyadic. Non-trivial = some pooling and non-constant y; distinct = distinct "
+        "'gpava_direct' = gpava(fun, y, w) itself with the weighted mean / lower quantile (exact) / scipy's expectile against the model's array program; 'pava_direct' = pava(y, w) itself (also with w=None) on integer data for which floats are exact, against the model's in-place array program (x and r bit for bit). All four functionals, both directions, levels dyadic. Non-trivial = some pooling and non-constant y; distinct = distinct "
         "(functional, level, direction, y, w, relation)."
     )
     assumptions = ["float rounding outside the model; affine maps and weight factors are dyadic so that they are exact in floats"]
@@ -38,6 +38,14 @@ class C12(Prop):
             yield {"stream": "pava_direct", "f": "mean", "level": "1/2", "inc": True,
                    "y": [str(rng.randint(-2, 4) * L) for _ in range(n)],
                    "w": None if rng.random() < 0.3 else [str(rng.randint(1, 3)) for _ in range(n)]}
+        for k in range(300 if tier == "quick" else 6000):
+            # gpava(fun, y, w) itself, called directly, against the model's in-place array program (MD/Model/GpavaArr.lean):
+            # weighted mean and lower quantile exactly (integer data), expectile (scipy's root finder) with tolerance
+            n = rng.randint(1, 9)
+            g = rng.choice(["mean", "qlower", "qlower", "expectile"])
+            yield {"stream": "gpava_direct", "f": "mean", "g": g, "level": rng.choice(["1/2", "1/4", "3/4", "1/8"]), "inc": True,
+                   "y": [str(rng.randint(-2, 4) * L) for _ in range(n)],
+                   "w": None if g == "qlower" else [str(rng.randint(1, 3)) for _ in range(n)]}
         for k in range(250 if tier == "quick" else 2500):
             # narrow / unsigned / boolean observation dtypes (long violating runs -> large pooled weights), all functionals
             f = rng.choice(["mean", "mean", "quantile", "median", "expectile"])
@@ -102,9 +110,35 @@ class C12(Prop):
         return {"x": [float(v) for v in x], "r": [int(v) for v in r],
                 "unchanged": bool(np.array_equal(y, y0) and (w is None or np.array_equal(w, w0)))}
 
+    def impl_gpava(self, case):
+        from functools import partial
+
+        from model_diagnostics._utils.isotonic import gpava, quantile_lower
+
+        y = np.array([float(Fraction(v)) for v in case["y"]])
+        w = None if case["w"] is None else np.array([float(Fraction(v)) for v in case["w"]])
+        lv = float(Fraction(case["level"]))
+        if case["g"] == "mean":
+            fun = lambda x, wx: np.average(x, weights=wx)
+        elif case["g"] == "qlower":
+            fun = lambda x, wx: quantile_lower(x, level=lv)
+        else:
+            from scipy.stats import expectile
+
+            fun = lambda x, wx: expectile(x, alpha=lv, weights=wx)
+        y0, w0 = y.copy(), None if w is None else w.copy()
+        try:
+            x, r = gpava(fun, y, w)
+        except Exception as e:
+            return {"err": exc_class(e), "msg": str(e)[:200]}
+        return {"x": [float(v) for v in x], "r": [int(v) for v in r],
+                "unchanged": bool(np.array_equal(y, y0) and (w is None or np.array_equal(w, w0)))}
+
     def impl(self, case):
         if case["stream"] == "pava_direct":
             return self.impl_pava(case)
+        if case["stream"] == "gpava_direct":
+            return self.impl_gpava(case)
         base = ic.call_iso(case)
         if "err" in base:
             return base
@@ -156,9 +190,17 @@ class C12(Prop):
     def model_request(self, case):
         if case["stream"] == "pava_direct":
             return {"op": "pava_arr", "y": case["y"], "w": case["w"] or ["1"] * len(case["y"])}
+        if case["stream"] == "gpava_direct":
+            return {"op": "gpava_arr", "f": case["g"], "level": case["level"], "y": case["y"], "w": case["w"] or ["1"] * len(case["y"])}
         return ic.iso_request(case)
 
     def compare(self, case, io, mo):
+        if case["stream"] == "gpava_direct":
+            if "err" in io:
+                return f"gpava raised {io['err']}: {io.get('msg')}"
+            if case["g"] == "expectile":
+                return ic.compare_xr(io, mo, exact=False, tol=1e-7, scale=ic.data_scale(case), ylocal=case["y"])
+            return ic.compare_xr(io, mo, exact=True)
         if case["stream"] == "pava_direct":
             if "err" in io:
                 return f"pava raised {io['err']}: {io.get('msg')}"
@@ -172,10 +214,10 @@ class C12(Prop):
     def oracle(self, case, io):
         if "err" in io:
             return f"valid input rejected with {io['err']}"
-        if case["stream"] == "pava_direct":
+        if case["stream"] in ("pava_direct", "gpava_direct"):
             if not io["unchanged"]:
-                return "pava modified its input arrays"
-            return ic.contract_oracle(case, io, 1e-9)
+                return "pava / gpava modified its input arrays"
+            return ic.contract_oracle(case, io, 1e-7 if case.get("g") == "expectile" else 1e-9)
         tol = 1e-7 if case["f"] == "expectile" else 1e-9
         c = ic.contract_oracle(case, io, tol)
         if c:
